@@ -25,12 +25,12 @@ type Taint struct {
 	FollowField func(fv *types.Var) bool
 	// Scope, when set, confines the flow to these functions (no parameter binding into, and no
 	// return to, functions outside it).
-	Scope func(fn *ssa.Function) bool
-	Hits  []TaintHit
-	work        []ssa.Value
-	fieldT      map[*types.Var]string
-	hitSeen     map[ssa.Instruction]bool
-	Steps       int
+	Scope   func(fn *ssa.Function) bool
+	Hits    []TaintHit
+	work    []ssa.Value
+	fieldT  map[*types.Var]string
+	hitSeen map[ssa.Instruction]bool
+	Steps   int
 }
 
 type TaintHit struct {
